@@ -47,6 +47,9 @@ class MDSDRV_Data
 	friend class MD_PSG;
 	friend class MD_PSGMelody;
 	friend class MD_PSGNoise;
+#ifdef CTRMML_VERIF
+	friend class MDSDRV_Data_Test; // verification harness: read access to the data bank and maps
+#endif
 
 	public:
 		enum InstrumentType
